@@ -816,6 +816,12 @@ impl Database {
             // with it, come from the entry as it is now (a key the snapshot has purged meanwhile is
             // a new key: it has no place on disk any more)
             let (state, value_disk_addr, key_disk_addr) = match db.get(key) {
+                // (a removed key stays removed while it waits for the arbiter: it is not listed)
+                Some(current) if current.state == ValueStatus::Deleted => (
+                    ValueStatus::Deleted,
+                    current.value_disk_addr,
+                    current.key_disk_addr,
+                ),
                 Some(current) => (
                     current.get_update_value_sate(),
                     current.value_disk_addr,
